@@ -427,7 +427,7 @@ def case(ctx, rng, idx, state):
 if __name__ == "__main__":
     harness.main(
         PROP, "exploration", case, setup_fn=setup,
-        tiers=dict(quick=dict(cases=1600, shards=8, time=200), thorough=dict(cases=40000, shards=16, time=900)),
+        tiers=dict(quick=dict(cases=1600, shards=8, time=900), thorough=dict(cases=40000, shards=16, time=3000)),
         rule="random PythTB models (dim 1-3, possibly fewer periodic directions, 1-4 orbitals, spinless/spinful, positions "
              "inside / outside / negative / on cell edges, on-site none/all/single/accumulated, 1-8 hoppings up to 3 cells "
              "away, scalar / Pauli-vector / 2x2 amplitudes, repeated and explicit conjugate hoppings, legacy tb_model "
